@@ -278,7 +278,8 @@ pub fn run_client_racy(cfg: &ScenCfg, out: &mut RunOut) {
                                     out.probe("racy_replayed_frame_from_earlier_connection");
                                     older[choose(older.len() as u32) as usize].clone()
                                 } else {
-                                    mbap_frame(tx.wrapping_sub(1 + choose(3) as u16), unit, &super::client::correct_reply(&req))
+                                    let k = if chance(1, 3) { [256u16, 32767, 32768, 32769][choose(4) as usize] } else { 1 + choose(3) as u16 };
+                                    mbap_frame(tx.wrapping_sub(k), unit, &super::client::correct_reply(&req))
                                 };
                                 conns[ci].peer.write(&stale);
                                 let r = super::client::correct_reply(&req);
